@@ -122,6 +122,42 @@ def parseOp (ws : List String) : Option Op :=
     do let _ ← parseTSlot t; some .harnessOnly
   | _ => none
 
+open Cello.Config.Keep in
+def parseKind (t : String) : Option Kind :=
+  match t with
+  | "a" => some .array | "l" => some .list | "t" => some .tableV | "k" => some .tableK | "r" => some .treeV
+  | "q" => some .treeK | "u" => some .tuple | "c" => some .chain | "s" => some .tls | _ => none
+
+def keepOpNames : List String :=
+  ["hnew", "hput", "hget", "hread", "hrem", "hrel", "hshrink", "hreserve", "hchurn", "hdrop", "hdel"]
+
+/-- the keep operations (`h…`): syntax exactly as harness/h_cfg.c checks it -/
+def parseKeep (ws : List String) : Option Keep.KOp :=
+  match ws with
+  | ["hchurn", m] => do some (.hchurn (← parseInt m))
+  | ["hnew", h, k] => do some (.hnew (← parseSlot h) (← parseKind k))
+  | ["hput", h, k, id, pay] => do some (.hput (← parseSlot h) (← parseInt k) (← parseInt id) (← parseInt pay))
+  | ["hget", h, k] => do some (.hget (← parseSlot h) (← parseInt k))
+  | ["hrem", h, k] => do some (.hrem (← parseSlot h) (← parseInt k))
+  | ["hrel", h, k] => do some (.hrel (← parseSlot h) (← parseInt k))
+  | ["hshrink", h, k] => do some (.hshrink (← parseSlot h) (← parseInt k))
+  | ["hreserve", h, k] => do some (.hreserve (← parseSlot h) (← parseInt k))
+  | ["hread", h] => do some (.hread (← parseSlot h))
+  | ["hdrop", h] => do some (.hdrop (← parseSlot h))
+  | ["hdel", h] => do some (.hdel (← parseSlot h))
+  | _ => none
+
+def showKOut : Keep.KOut → String
+  | .unit => "ok"
+  | .got i p => s!"hget {i}:{p}"
+  | .churn c => s!"churn {c}"
+  | .read items stat =>
+    let body := ",".intercalate (items.map (fun e => s!"{e.1}:{e.2.1}:{e.2.2}"))
+    let tail := match stat with
+      | some (n, hi) => s!" slots={n} high={hi}"
+      | none => ""
+    s!"hread n={items.length} [{body}]{tail}"
+
 def showVal : Val → String
   | .int i => s!"i{i}"
   | .str s => s!"s{s}"
@@ -150,11 +186,40 @@ def main (args : List String) : IO Unit := do
   let mut nDiverge := 0
   let mut collections := 0
   let mut memoFills := 0
+  -- the keep programs (containers as the sole path to managed objects): one state per configuration as well
+  let mut ksts : List Keep.KSt := cfgs.map (fun _ => Keep.KSt.init)
+  let mut nKeep := 0
+  let mut kHigh := 0
   for l in lines do
     if Driver.isSkippable l then continue
     let ws := Driver.words l
     if ws.length > maxTok then
       IO.println "O bad-op"; nBad := nBad + 1; continue
+    if keepOpNames.contains (ws.headD "") then
+      match parseKeep ws with
+      | none => IO.println "O bad-op"; nBad := nBad + 1
+      | some kop =>
+        let rs := (cfgs.zip ksts).map (fun p => Keep.kstep p.1 kop p.2)
+        let r0 := rs.head!
+        let agree := rs.all (fun r => r.2 == r0.2)
+        match r0.2 with
+        | .ok out =>
+          nOps := nOps + 1; nKeep := nKeep + 1
+          IO.println s!"O {showKOut out}"
+          if !agree then
+            nDiverge := nDiverge + 1
+            IO.println "O model-config-divergence"
+          match out with
+          | .read _ (some (_, hi)) => kHigh := kHigh + hi
+          | _ => pure ()
+          ksts := rs.map (·.1)
+        | _ =>
+          nOoc := nOoc + 1
+          IO.println "O out-of-contract"
+          if !agree then
+            nDiverge := nDiverge + 1
+            IO.println "O model-config-divergence"
+      continue
     match parseOp ws with
     | none => IO.println "O bad-op"; nBad := nBad + 1
     | some op =>
@@ -163,6 +228,10 @@ def main (args : List String) : IO Unit := do
       match r0.2 with
       | .ok out =>
         nOps := nOps + 1
+        -- a forced collection also collects the garbage of the keep programs
+        match op with
+        | .gc => ksts := (cfgs.zip ksts).map (fun p => (Keep.kstep p.1 .gc p.2).1)
+        | _ => pure ()
         match showOut out with
         | some t => IO.println s!"O {t}"
         | none => pure ()
@@ -178,5 +247,5 @@ def main (args : List String) : IO Unit := do
         -- out of contract under the default configuration: not executed by the harness; the states stay as they are
         nOoc := nOoc + 1
         IO.println "O out-of-contract"
-  IO.println s!"O end live={(sts.head!).live.length}"
-  IO.println s!"S ops={nOps} out-of-contract={nOoc} bad={nBad} config-divergences={nDiverge} collections={collections} cache-fills={memoFills} heap-default={(sts.head!).heap.length} heap-ngc={((sts.drop 3).head!).heap.length}"
+  IO.println s!"O end live={(sts.head!).live.length} holders={(ksts.head!).slots.length}"
+  IO.println s!"S ops={nOps} out-of-contract={nOoc} bad={nBad} config-divergences={nDiverge} collections={collections} cache-fills={memoFills} heap-default={(sts.head!).heap.length} heap-ngc={((sts.drop 3).head!).heap.length} keep-ops={nKeep} keep-collections={(ksts.head!).collections} keep-high-slot-entries={kHigh} keep-heap-default={(ksts.head!).heap.length} keep-heap-ngc={((ksts.drop 3).head!).heap.length}"
